@@ -682,10 +682,15 @@ def gen_zero_chunk(ctx, n):
     for _ in range(n):
         nd = rng.randint(1, 3)
         shape = tuple(rng.choice([1, 1, 2, 3]) for _ in range(nd))
+        if rng.random() < 0.3 and 1 not in shape:
+            shape = shape[:-1] + (1,)
         a = _zero_leaf(rng, shape)
         r = rng.random()
-        if r < 0.4:
+        if r < 0.5:
             other = tuple(m if rng.random() < 0.6 else 1 for m in shape)
+            if 1 in shape and rng.random() < 0.75:
+                # the length-one axis that carries the zero-length chunk is BROADCAST against a longer axis of the other operand
+                other = tuple((rng.randint(2, 3) if m == 1 and rng.random() < 0.7 else m) for m in shape)
             if rng.random() < 0.3:
                 other = other[rng.randint(0, nd - 1):]
             b = _zero_leaf(rng, other) if rng.random() < 0.5 else _pipe_leaf(rng, other)
@@ -716,7 +721,7 @@ def generate(ctx):
     yield from gen_grid_reduce(ctx, ctx.n(30, 300))
     yield from gen_joint(ctx, ctx.n(40, 400))
     yield from gen_multistage(ctx, ctx.n(25, 250))
-    yield from gen_zero_chunk(ctx, ctx.n(40, 500))
+    yield from gen_zero_chunk(ctx, ctx.n(60, 700))
     # the defect found while building this check (fixed): x + y with differently chunked operands
     yield "trace", {"prog": {"op": "binary", "fn": "add",
                              "a": {"op": "from_array", "data": [1, 2, 3, 4], "shape": [4], "dtype": "int64", "chunks": [[2, 2]]},
